@@ -22,3 +22,69 @@ package keeper
 //@   modifies nothing
 //@   ensures[C12.sig] len(result) == 4 && result[0] == 0x06 && result[1] == 0xfd && result[2] == 0xde && result[3] == 0x03
 //@   panics never
+
+// ---------------------------------------------------------------------------------------------
+// precompiles_erc20.go — allowance table (C10). View: cpcAllow(kvHas[id], kvVal[id], owner, spender) with
+// id = kvId(layer(ctx), payload(k.storeKey)), the module store seen through ctx's layer.
+// ---------------------------------------------------------------------------------------------
+
+//@ func (k Keeper) GetErc20CpcAllowance(ctx sdk.Context, owner, spender common.Address) *big.Int
+//@   requires k.storeKey != nil
+//@   modifies nothing
+//@   ensures[C10.allow_get] result != nil && fresh(result) && bigval[result] == cpcAllow(kvHas[kvId(layer(ctx), payload(k.storeKey))], kvVal[kvId(layer(ctx), payload(k.storeKey))], owner, spender)
+//@   panics never
+
+// Sets exactly one entry: the store is unchanged except at the key of (owner, spender); a zero allowance deletes the entry.
+//@ func (k Keeper) SetErc20CpcAllowance(ctx sdk.Context, owner, spender common.Address, allowance *big.Int)
+//@   requires k.storeKey != nil && allowance != nil
+//@   modifies kvHas[kvId(layer(ctx), payload(k.storeKey))], kvVal[kvId(layer(ctx), payload(k.storeKey))]
+//@   ensures[C10.allow_set] cpcAllow(kvHas[kvId(layer(ctx), payload(k.storeKey))], kvVal[kvId(layer(ctx), payload(k.storeKey))], owner, spender) == bigval[allowance]
+//@   ensures[C10.allow_set_frame] kvHas[kvId(layer(ctx), payload(k.storeKey))] == old(kvHas[kvId(layer(ctx), payload(k.storeKey))])[allowKeyB(owner, spender) := bigval[allowance] != 0] && kvVal[kvId(layer(ctx), payload(k.storeKey))] == old(kvVal[kvId(layer(ctx), payload(k.storeKey))])[allowKeyB(owner, spender) := kvVal[kvId(layer(ctx), payload(k.storeKey))][allowKeyB(owner, spender)]]
+//@   panics[C10.allow_set_range] iff bigval[allowance] < 0 || bigval[allowance] >= pow2(256)
+
+// ---------------------------------------------------------------------------------------------
+// precompiles_erc20.go — the ERC-20 contract object and its typed metadata
+// ---------------------------------------------------------------------------------------------
+//@ import abi "github.com/EscanBE/evermint/v12/x/cpc/abi"
+
+// D: the bank denomination of an ERC-20 precompile = "min_denom" of the JSON document in its metadata record
+//@ ghost func erc20Denom(typedMeta string) string = jsonErc20MinDenom(strBytes(typedMeta))
+
+// GetErc20Metadata decodes the typed metadata (cached after the first call). Object invariant of the cache
+// (established by NewErc20CustomPrecompiledContract: cache == nil; preserved here): a cached record is the decoded one.
+//@ func (m *erc20CustomPrecompiledContract) GetErc20Metadata() (meta cpctypes.Erc20CustomPrecompiledContractMeta)
+//@   requires m != nil
+//@   requires m.cacheErc20Metadata != nil ==> (m.cacheErc20Metadata.MinDenom == erc20Denom(m.metadata.TypedMeta) && m.cacheErc20Metadata.Symbol == jsonErc20Symbol(strBytes(m.metadata.TypedMeta)) && m.cacheErc20Metadata.Decimals == jsonErc20Decimals(strBytes(m.metadata.TypedMeta)))
+//@   modifies m.cacheErc20Metadata
+//@   ensures[C10.denom_of_metadata] meta.MinDenom == erc20Denom(m.metadata.TypedMeta) && meta.Symbol == jsonErc20Symbol(strBytes(m.metadata.TypedMeta)) && meta.Decimals == jsonErc20Decimals(strBytes(m.metadata.TypedMeta))
+//@   ensures m.cacheErc20Metadata != nil && m.cacheErc20Metadata.MinDenom == erc20Denom(m.metadata.TypedMeta) && m.cacheErc20Metadata.Symbol == jsonErc20Symbol(strBytes(m.metadata.TypedMeta)) && m.cacheErc20Metadata.Decimals == jsonErc20Decimals(strBytes(m.metadata.TypedMeta))
+//@   panics only_if !jsonErc20Ok(strBytes(m.metadata.TypedMeta))
+
+// spendAllowance (C10): an unlimited allowance (2^256-1) is never decremented; any other is reduced by exactly the
+// amount or, when insufficient, the call fails with the table untouched. Nothing but the entry (owner, spender) changes.
+//@ func (e erc20CustomPrecompiledContractRwTransferFrom) spendAllowance(ctx sdk.Context, owner, spender common.Address, amount *big.Int) (err error)
+//@   requires e.contract != nil && e.contract.keeper.storeKey != nil && amount != nil && bigval[amount] >= 0
+//@   modifies kvHas[kvId(layer(ctx), payload(e.contract.keeper.storeKey))], kvVal[kvId(layer(ctx), payload(e.contract.keeper.storeKey))]
+//@   ensures[C10.infinite_kept] old(cpcAllow(kvHas[kvId(layer(ctx), payload(e.contract.keeper.storeKey))], kvVal[kvId(layer(ctx), payload(e.contract.keeper.storeKey))], owner, spender)) == pow2(256) - 1 ==> (err == nil && kvHas[kvId(layer(ctx), payload(e.contract.keeper.storeKey))] == old(kvHas[kvId(layer(ctx), payload(e.contract.keeper.storeKey))]) && kvVal[kvId(layer(ctx), payload(e.contract.keeper.storeKey))] == old(kvVal[kvId(layer(ctx), payload(e.contract.keeper.storeKey))]))
+//@   ensures[C10.spend_exact] (old(cpcAllow(kvHas[kvId(layer(ctx), payload(e.contract.keeper.storeKey))], kvVal[kvId(layer(ctx), payload(e.contract.keeper.storeKey))], owner, spender)) != pow2(256) - 1 && bigval[amount] <= old(cpcAllow(kvHas[kvId(layer(ctx), payload(e.contract.keeper.storeKey))], kvVal[kvId(layer(ctx), payload(e.contract.keeper.storeKey))], owner, spender))) ==> (err == nil && cpcAllow(kvHas[kvId(layer(ctx), payload(e.contract.keeper.storeKey))], kvVal[kvId(layer(ctx), payload(e.contract.keeper.storeKey))], owner, spender) == old(cpcAllow(kvHas[kvId(layer(ctx), payload(e.contract.keeper.storeKey))], kvVal[kvId(layer(ctx), payload(e.contract.keeper.storeKey))], owner, spender)) - bigval[amount])
+//@   ensures[C10.spend_insufficient] (old(cpcAllow(kvHas[kvId(layer(ctx), payload(e.contract.keeper.storeKey))], kvVal[kvId(layer(ctx), payload(e.contract.keeper.storeKey))], owner, spender)) != pow2(256) - 1 && bigval[amount] > old(cpcAllow(kvHas[kvId(layer(ctx), payload(e.contract.keeper.storeKey))], kvVal[kvId(layer(ctx), payload(e.contract.keeper.storeKey))], owner, spender))) ==> (err != nil && kvHas[kvId(layer(ctx), payload(e.contract.keeper.storeKey))] == old(kvHas[kvId(layer(ctx), payload(e.contract.keeper.storeKey))]) && kvVal[kvId(layer(ctx), payload(e.contract.keeper.storeKey))] == old(kvVal[kvId(layer(ctx), payload(e.contract.keeper.storeKey))]))
+//@   ensures[C10.spend_frame] kvHas[kvId(layer(ctx), payload(e.contract.keeper.storeKey))] == old(kvHas[kvId(layer(ctx), payload(e.contract.keeper.storeKey))])[allowKeyB(owner, spender) := kvHas[kvId(layer(ctx), payload(e.contract.keeper.storeKey))][allowKeyB(owner, spender)]] && kvVal[kvId(layer(ctx), payload(e.contract.keeper.storeKey))] == old(kvVal[kvId(layer(ctx), payload(e.contract.keeper.storeKey))])[allowKeyB(owner, spender) := kvVal[kvId(layer(ctx), payload(e.contract.keeper.storeKey))][allowKeyB(owner, spender)]]
+//@   panics[C10.spend_panics] only_if cpcAllow(kvHas[kvId(layer(ctx), payload(e.contract.keeper.storeKey))], kvVal[kvId(layer(ctx), payload(e.contract.keeper.storeKey))], owner, spender) >= pow2(256)
+
+// transfer (C10): with x = amount, D = the contract's denomination, moved = (from == to ? 0 : x):
+//  to != 0: from loses moved, to gains moved, supply unchanged;  to == 0 (burn): from loses moved, supply shrinks by moved;
+//  every other (address, denomination) is unchanged; exactly one Transfer log is appended; the allowance table is untouched
+//  (frame). A normal return with err == nil implies x <= balance(from).
+//@ func (e erc20CustomPrecompiledContractRwTransferFrom) transfer(ctx sdk.Context, from, to common.Address, amount *big.Int, contractAddr common.Address, stateDB corevm.StateDB) (ret []byte, err error)
+//@   requires e.contract != nil && e.contract.keeper.bankKeeper != nil && stateDB != nil && amount != nil
+//@   requires e.contract.cacheErc20Metadata != nil ==> (e.contract.cacheErc20Metadata.MinDenom == erc20Denom(e.contract.metadata.TypedMeta) && e.contract.cacheErc20Metadata.Symbol == jsonErc20Symbol(strBytes(e.contract.metadata.TypedMeta)) && e.contract.cacheErc20Metadata.Decimals == jsonErc20Decimals(strBytes(e.contract.metadata.TypedMeta)))
+//@   modifies e.contract.cacheErc20Metadata, bankBal[layer(ctx)], bankSupply[layer(ctx)], authVersion[layer(ctx)], evlog[payload(ctx.EventManager())], sdbLogCount[payload(stateDB)], sdbLogAddr[payload(stateDB)], sdbLogNTopics[payload(stateDB)], sdbLogT0[payload(stateDB)], sdbLogT1[payload(stateDB)], sdbLogT2[payload(stateDB)], sdbLogT3[payload(stateDB)], sdbLogData[payload(stateDB)], sdbOther[payload(stateDB)]
+//@   ensures[C10.transfer_needs_balance] err == nil ==> (0 <= bigval[amount] && bigval[amount] <= old(bankBal[layer(ctx)][addrBytes(from)][erc20Denom(e.contract.metadata.TypedMeta)]))
+//@   ensures[C10.transfer_moves] (err == nil && to != zero(type(common.Address))) ==> (forall a bytes, d string :: bankBal[layer(ctx)][a][d] == old(bankBal[layer(ctx)][a][d]) - ((a == addrBytes(from) && d == erc20Denom(e.contract.metadata.TypedMeta) && from != to) ? bigval[amount] : 0) + ((a == addrBytes(to) && d == erc20Denom(e.contract.metadata.TypedMeta) && from != to) ? bigval[amount] : 0))
+//@   ensures[C10.transfer_supply_kept] (err == nil && to != zero(type(common.Address))) ==> bankSupply[layer(ctx)] == old(bankSupply[layer(ctx)])
+//@   ensures[C10.burn_moves] (err == nil && to == zero(type(common.Address))) ==> (forall a bytes, d string :: bankBal[layer(ctx)][a][d] == old(bankBal[layer(ctx)][a][d]) - ((a == addrBytes(from) && d == erc20Denom(e.contract.metadata.TypedMeta) && from != to) ? bigval[amount] : 0))
+//@   ensures[C10.burn_supply] (err == nil && to == zero(type(common.Address))) ==> (forall d string :: bankSupply[layer(ctx)][d] == old(bankSupply[layer(ctx)][d]) - ((d == erc20Denom(e.contract.metadata.TypedMeta) && from != to) ? bigval[amount] : 0))
+//@   ensures[C10.transfer_log] err == nil ==> (sdbLogCount[payload(stateDB)] == old(sdbLogCount[payload(stateDB)]) + 1 && sdbLogAddr[payload(stateDB)] == old(sdbLogAddr[payload(stateDB)])[old(sdbLogCount[payload(stateDB)]) := contractAddr] && sdbLogNTopics[payload(stateDB)] == old(sdbLogNTopics[payload(stateDB)])[old(sdbLogCount[payload(stateDB)]) := 3] && sdbLogT0[payload(stateDB)] == old(sdbLogT0[payload(stateDB)])[old(sdbLogCount[payload(stateDB)]) := common.HexToHash("0xddf252ad1be2c89b69c2b068fc378daa952ba7f163c4a11628f55a4df523b3ef")] && sdbLogT1[payload(stateDB)] == old(sdbLogT1[payload(stateDB)])[old(sdbLogCount[payload(stateDB)]) := hashOfBytes(addrBytes(from))] && sdbLogT2[payload(stateDB)] == old(sdbLogT2[payload(stateDB)])[old(sdbLogCount[payload(stateDB)]) := hashOfBytes(addrBytes(to))] && sdbLogData[payload(stateDB)] == old(sdbLogData[payload(stateDB)])[old(sdbLogCount[payload(stateDB)]) := hashBytes(hashOfBytes(beBytes(bigval[amount])))])
+//@   ensures[C10.transfer_fail_no_log] err != nil ==> sdbLogCount[payload(stateDB)] == old(sdbLogCount[payload(stateDB)])
+//@   ensures[C10.transfer_returns_true] err == nil ==> (len(ret) == 32 && ret[31] == 1)
+//@   ensures e.contract.cacheErc20Metadata != nil && e.contract.cacheErc20Metadata.MinDenom == erc20Denom(e.contract.metadata.TypedMeta) && e.contract.cacheErc20Metadata.Symbol == jsonErc20Symbol(strBytes(e.contract.metadata.TypedMeta)) && e.contract.cacheErc20Metadata.Decimals == jsonErc20Decimals(strBytes(e.contract.metadata.TypedMeta))
